@@ -31,7 +31,7 @@ ASSUMPTIONS = [
     "program as the LF text handed to the in-memory API",
 ]
 MAPPINGS = ["low", "low2", "high"]
-DEFINES = [[], ["DEFA=5", "_DEFU=9"], ["DEFA=0x1234"], ["DEFA=7", "DEFB=DEFA+0x19", "DEFC=0", "_DEFU=3", "Def_9z=_DEFU*2"]]
+DEFINES = [[], ["DEFA=5", "_DEFU=9"], ["DEFA=0x1234", "DEFC=2", "DEFA=0x21"], ["DEFA=7", "DEFB=DEFA+0x19", "DEFC=0", "_DEFU=3", "Def_9z=_DEFU*2"]]      # (a name given twice: the later one stands)
 WEIGHTS = dict(ins=6, data=5, label=4, block=1.5, scope=1, macro=0.8, call=1.5, for_=1, if_=0.6, assign=1, sym=0.8, org=1.2, reloc=0.3, ascii=0.6, incbin=0.4, branch=0.0, include=0.5,
                table=0.2, text=0.4, include_ips=0.2)
 
@@ -68,6 +68,8 @@ def gen_program(rng: random.Random, mapping: str, big: bool = False) -> dict:
                                               {"k": "ins", "m": "lda", "shape": "imm", "sz": "w", "e": E("DEFA")}], "e": [{"k": "data", "d": "db", "es": [E(0xD0)]}]},
             {"k": "if", "c": E("DEFB"), "t": [{"k": "block", "b": [{"k": "data", "d": "dl", "es": [E("DEFB", "*", 2), E("DEFC")]}]},
                                               {"k": "for", "v": "itD", "a": E(0), "b": E("DEFA", "&", 3), "body": [{"k": "data", "d": "db", "es": [E("itD", "+", "DEFB")]}]}]}]
+    # a comment whose last character is a backslash (a DOS path, ASCII art) is a comment up to its line end, in a file as in memory
+    tail += [{"k": "raw", "text": "; converted from ..\\gfx\\sheets\\\n.db 0x77\n.db 0x78 ; idle \\ walk \\\n.db 0x79"}]
     # names with a leading underscore, digits and mixed case are names like any other
     tail += [{"k": "if", "c": E("_DEFU"), "t": [{"k": "data", "d": "db", "es": [E("_DEFU")]}, {"k": "if", "c": E("Def_9z"), "t": [{"k": "data", "d": "dw", "es": [E("Def_9z", "+", "_DEFU")]}]}]}]
     # a command-line definition is an ordinary top-level constant: inner scopes may define the same name for themselves
